@@ -50,6 +50,13 @@ func c08Inputs(g *gen.Gen, rng *rand.Rand, n int) []c08Input {
 			case 2:
 				buf.Write(g.OtherLine().Bytes(jt.Plain))
 				buf.WriteByte('\n')
+			case 3:
+				// a complete object followed by more text on the same line: the fault-free run drops
+				// the line; a read fault or gzip cut that lands right behind the object must not turn
+				// its first part into an output line
+				buf.Write(g.Case(gen.CaseOpts{}).Line.Bytes(jt.Plain))
+				buf.WriteString([]string{" trailing", `{"b":2}`, "}", " ]", " 17", ` {"t":{"$date":"2024-01-01T00:00:00.000+00:00"},"c":"COMMAND","msg":"x"}`}[rng.Intn(6)])
+				buf.WriteByte('\n')
 			default:
 				buf.Write(g.Case(gen.CaseOpts{}).Line.Bytes(jt.Plain))
 				buf.WriteByte('\n')
